@@ -227,6 +227,7 @@ func c02Main(args []string) error {
 	flood := fs.Int("flood", 0, "send this many distinct SYNs after the records")
 	random := fs.Int("random", 0, "send this many random-byte frames after the records")
 	seed := fs.Int64("seed", 1, "seed")
+	quiet := fs.Bool("quiet", false, "after everything else: 5.7 s of silence (the knock detector reports), then a probe")
 	fs.Parse(args)
 	quietLogs()
 	rig, err := newCanaryRig(true)
@@ -320,6 +321,18 @@ func c02Main(args []string) error {
 				note(fmt.Sprintf("noprobe %d", id))
 				return fmt.Errorf("listener stopped answering during the flood at %d", i)
 			}
+		}
+	}
+	// a history, not a frame: by now one peer has knocked on hundreds of distinct ports (every probe goes to another
+	// one); when the wire falls silent for the detector's quiet period (5 s) the port scan is reported - by a goroutine
+	// of the listener's that must survive it
+	if *quiet {
+		note("sent 3000000")
+		time.Sleep(5700 * time.Millisecond)
+		seq++
+		if !rig.probe(seq, 5*time.Second) {
+			note("noprobe 3000000")
+			return fmt.Errorf("listener stopped answering after the quiet period")
 		}
 	}
 	note(fmt.Sprintf("done states=%d", rig.c.VerifStateCount()))
